@@ -144,7 +144,7 @@ func (c *FnCtx) run() {
 		}
 	}
 	for _, cl := range c.fc.Clauses {
-		if cl.Kind == "assert" || cl.Kind == "assume" || cl.Kind == "ghostat" || cl.Kind == "cover" {
+		if cl.Kind == "assert" || cl.Kind == "assume" || cl.Kind == "ghostat" || cl.Kind == "cover" || cl.Kind == "ghostset" {
 			c.ghostAt = append(c.ghostAt, ghostClause{cl: cl})
 		}
 		if cl.Kind == "ghostat" {
@@ -783,6 +783,13 @@ func (c *FnCtx) ghostAsserts(st *State, in ssa.Instruction) {
 		}
 		g.done = true
 		env := c.loopEnv(st)
+		if g.cl.Kind == "ghostset" {
+			fam := "G$gfa." + g.cl.Target.Args[1].(EStr).V
+			obj, idx, val := env.evalInt(g.cl.Target.Args[0]), env.evalInt(g.cl.Target.Args[2]), env.evalInt(g.cl.E)
+			ms := mapSort(2, sInt)
+			c.heapSet(st, fam, ms, stoN(c.heapGet(st, fam, ms), []string{obj, idx}, val))
+			continue
+		}
 		if g.cl.Kind == "ghostat" {
 			v := env.eval(g.cl.E)
 			if iv, ok := v.(VInt); ok {
@@ -1581,6 +1588,14 @@ func (c *FnCtx) checkFrame() {
 						}
 					}
 				}
+			}
+		}
+	}
+	for _, cl := range c.fc.Clauses {
+		if cl.Kind == "ghostset" {
+			pre["G$gfa."+cl.Target.Args[1].(EStr).V] = true
+			if len(c.loops) > 0 {
+				panic(specErr{"ghost set in a function with loops is not supported"})
 			}
 		}
 	}
